@@ -8,6 +8,8 @@ package grpc
 // minimal fake streams. Prints one C19CASE line per case.
 
 import (
+	"google.golang.org/grpc/codes"
+	"google.golang.org/grpc/status"
 	"context"
 	"errors"
 	"fmt"
@@ -361,7 +363,9 @@ func c19Matrix(f func(admitted, fallback bool, handler string)) {
 }
 
 var c19Bools = []bool{true, false}
-var c19Handlers = []string{"ok", "err", "panic"}
+// "errtyped": the handler fails with the framework's own error type carrying a client-error status (where the
+// framework has one; elsewhere it is a second plain failure)
+var c19Handlers = []string{"ok", "err", "panic", "errtyped"}
 
 func c19Name(ep string, admitted, fallback bool, handler string) string {
 	if c19PairTag != "" {
@@ -435,6 +439,8 @@ func c19GrpcCase(t *testing.T, ep string, admitted, fallback bool, handler strin
 	behave := func() error {
 		c.handlerCalled()
 		switch handler {
+		case "errtyped":
+			return status.Error(codes.InvalidArgument, "c19 typed handler error")
 		case "err":
 			return c19ErrHandler
 		case "panic":
